@@ -178,6 +178,13 @@ def run(R):
     r9(R, inc)
     r10(R)
     r11(R, inc)
+    # the saturation test decides whether a later expiry replaces an earlier one: shared with C06-R9
+    R.rule("C12-R12", "a later expiry is a change: the saturation test that update_disjunction applies to expiry tags compares the two expiries as "
+                      "integers - its own `old == new`, or a default that compares images under a one-to-one function. An image in f64 is not one-to-one "
+                      "beyond 2^53 (nanosecond clocks): a renewal by less than the float spacing is dropped, the carried-over fact keeps its old "
+                      "expiry and the incremental result loses it while reasoning from scratch still derives it")
+    import c06
+    c06.r9(c06.Remap(R, {"C06-R9": "C12-R12"}))
     # ---- R2
     impls = [b for b in prog.bodies.values() if b.self_adt == "shared::provenance::ExpirationProvenance" and b.r.get("impl_trait", "").endswith("Provenance")]
     bym = {b.name: b for b in impls}
